@@ -52,58 +52,14 @@ theorem render_writeCellTree (x : Ext) (c : XC) : renderCell (writeCellTree x c)
   cases f <;> cases is_ <;> by_cases hv : v = [] <;>
     simp [hv, renderKid, renderIsKid, renderTextElem, renderAttrs_nil, render_spaceAttrs, inlineText_eq,
       l_f, l_fe, l_v, l_ve, l_ist, l_iste] <;>
-    (try (split <;> simp [renderKid, renderIsKid]))
+    (try (split <;> simp_all [renderKid, renderIsKid]))
 
-/-- `writeCell` and the marshaller agree on every cell record with a reference, except that the marshaller
-writes an empty `<is>` element for an inline-string part without content -/
-theorem tree_eq_marshal (x : Ext) (c : XC) (hr : c.r ≠ []) (his : c.is ≠ .runs []) :
-    writeCellTree x c = marshalTree x c := by
+/-- `writeCell` and the marshaller agree on every cell record with a reference -/
+theorem tree_eq_marshal (x : Ext) (c : XC) (hr : c.r ≠ []) : writeCellTree x c = marshalTree x c := by
   obtain ⟨r, s, t, v, f, is_, space⟩ := c
   simp only [writeCellTree, marshalTree]
   have hr' : r ≠ [] := hr
   simp only [hr', ne_eq, not_false_eq_true, if_true]
-  congr 2
-  cases is_ with
-  | none => rfl
-  | text val sp => rfl
-  | runs xml =>
-    have : xml ≠ [] := by intro h; apply his; simp [h]
-    simp [this]
-
-theorem reparse_r (c : XC) : (reparse c).r = c.r := by
-  unfold reparse; split <;> (try split) <;> rfl
-
-/-- for every cell record with a reference: what `writeCell` wrote is what the marshaller writes for the
-record a decoder reads back from it -/
-theorem tree_eq_marshal_reparsed (x : Ext) (c : XC) (hr : c.r ≠ []) :
-    writeCellTree x c = marshalTree x (reparse c) := by
-  by_cases his : c.is = .runs []
-  · obtain ⟨r, s, t, v, f, is_, space⟩ := c
-    have : is_ = .runs [] := his
-    subst this
-    have hr' : r ≠ [] := hr
-    simp [writeCellTree, marshalTree, reparse, hr']
-  · have e : reparse c = c := by
-      unfold reparse
-      split
-      · rename_i xml h
-        split
-        · rename_i hx; subst hx; exact absurd h his
-        · rfl
-      · rfl
-    rw [e]
-    exact tree_eq_marshal x c hr his
-
-/-- the part lost by `reparse` carries no observable -/
-theorem readCell_reparse (x : Ext) (c : XC) : readCell x (reparse c) = readCell x c := by
-  unfold reparse
-  split
-  · split
-    · rename_i xml h hx
-      subst hx
-      simp [readCell, h]
-    · rfl
-  · rfl
 
 theorem setCellVal_r (x : Ext) (c c' : XC) (v : Val) (h : setCellVal x c v = .ok c') : c'.r = c.r := by
   cases v <;> simp only [setCellVal] at h
